@@ -60,6 +60,10 @@ HOSTILE = [
     ("dollar-price", "$5 is the price. Q8end", None),
     ("dollar-var-first", "$last_user_message Q8end", None),
     ("dollar-var-quoted", '  "$user_message Q8end"', None),
+    # the message is EXACTLY a variable reference (an LLM echoing the prompt's notation): data like any other text
+    ("exact-var-quoted", '  "$user_message"', None),
+    ("exact-var-bare", "$last_user_message", None),
+    ("exact-var-object", '  "$event"', None),
     ("blank-then-prose", "\nI'm sorry, I can't help with that.\n\n", None),
     ("shaped-steps-user-only", "user ask something else", None),
     # well-formed for value generation (a quoted Python string): the string's content is LLM-made message text
